@@ -11,7 +11,7 @@ use serde_json::{json, Value};
 use std::cell::RefCell;
 use std::rc::Rc;
 
-pub const URLS: [&str; 9] = [
+pub const URLS: [&str; 11] = [
     "http://tracker.example/announce",
     "http://tracker.example:8080/a/b/announce",
     "http://t.example/announce?key=1",
@@ -22,6 +22,10 @@ pub const URLS: [&str; 9] = [
     "Https://T.Example:8443/Announce?passkey=K1",
     "http://[::1]:8080/announce",
     "http://127.0.0.1:6969/announce",
+    // characters outside ASCII in the path and in a parameter (the request carries them
+    // percent-encoded; compared after decoding)
+    "http://t.example/ann\u{f6}unce?key=1",
+    "http://t.example/\u{4e2d}\u{6587}/announce?k=\u{e9}t\u{e9}&z=1",
 ];
 
 /// Scheme and host in lower case (they are case-insensitive), the rest untouched.
@@ -183,7 +187,8 @@ pub fn judge(c: &Case, request: &str) -> Option<(&'static str, String)> {
     let (want_base, want_pairs) = split_url(URLS[c.url]);
     let has_query = URLS[c.url].contains('?');
     let tag = |s: &'static str, q: &'static str| if has_query { q } else { s };
-    if normalise_base(&base) != normalise_base(&want_base) {
+    let dec = |b: &str| { let n = normalise_base(b); pct_decode(&n).unwrap_or_else(|| n.into_bytes()) };
+    if dec(&base) != dec(&want_base) {
         return Some((tag("wrong-host-or-path", "announce-url-with-query-mangled"), format!("request {} does not go to {}", url, want_base)));
     }
     for (k, v) in &want_pairs {
@@ -307,7 +312,7 @@ pub fn run(ctx: &Ctx) -> Outcome {
     let mut o = Outcome::new("exploration");
     o.set("evaluations", json!(cases.len()));
     o.set("distinct_nontrivial", json!(distinct.len()));
-    o.set("rule", json!("info-hash = a fixed 20-byte pattern with every byte value 0..=255 substituted at the listed positions, plus all-equal hashes; x 9 announce URLs (plain, port+path, with one / two query parameters, trailing '?', upper-case scheme, mixed-case https host with port and query, IPv6 literal, IPv4 literal with port) x 5 alphanumeric peer ids x total lengths {0, 1, 2^40, 2^31-1, 2^32, 2^53+1, 2^63-1, 2^63, 2^63+1, 2^64-1, 2^40+1}, the last four as multi-file torrents (quick: ids/lengths only vary for the first URL). Plus retries: every word of <= 2 (thorough 3) failed announces (refused / HTTP 500 / garbage / failure reason) before the good reply for every URL, id and length, and one failure for every hash; EVERY request of a case is judged, not only the first. Each case runs the real TrackerClient::run over the HTTP seam (paused clock, so the 1 s retry delay is virtual); distinct_nontrivial = number of distinct request URLs captured."));
+    o.set("rule", json!("info-hash = a fixed 20-byte pattern with every byte value 0..=255 substituted at the listed positions, plus all-equal hashes; x 11 announce URLs (plain, port+path, with one / two query parameters, trailing ?, upper-case scheme, mixed-case https host with port and query, IPv6 literal, IPv4 literal with port, non-ASCII characters in the path before a query, non-ASCII in path and in a parameter value; bases compared after percent-decoding) x 5 alphanumeric peer ids x total lengths {0, 1, 2^40, 2^31-1, 2^32, 2^53+1, 2^63-1, 2^63, 2^63+1, 2^64-1, 2^40+1}, the last four as multi-file torrents (quick: ids/lengths only vary for the first URL). Plus retries: every word of <= 2 (thorough 3) failed announces (refused / HTTP 500 / garbage / failure reason) before the good reply for every URL, id and length, and one failure for every hash; EVERY request of a case is judged, not only the first. Each case runs the real TrackerClient::run over the HTTP seam (paused clock, so the 1 s retry delay is virtual); distinct_nontrivial = number of distinct request URLs captured."));
     o.set("hashes", json!(hs.len()));
     let picks = ctx.seeded_pick(cases.len(), 4);
     o.set("samples", Value::Array(picks.iter().map(|i| json!({"announce": URLS[cases[*i].url], "hash": core::hex(&cases[*i].hash), "request": res[*i].0})).collect()));
